@@ -15,17 +15,17 @@ import numpy as np
 from env import get_xp, tonp
 from env import resume_harness as rh
 from env.flows import AnalyticFlow
-from env.targets import InjectedFault, Monitor
+from env.targets import InjectedFault, InjectedInterrupt, Monitor
 from mc import explorer
 from mc.par import pmap
 from mc.report import Report
 
 LEVEL = "fault_enumeration"
 RULE = ("(cadence 1,2,3,5) x (run length 1..6 iterations, fixed and adaptive) x sampler x every call index k of the user's "
-        "likelihood/prior (exception raised inside call k) through Aspire.sample_posterior(checkpoint_path=file); payload-size "
+        "likelihood/prior (an exception, and a KeyboardInterrupt, raised inside call k) through Aspire.sample_posterior(checkpoint_path=file); payload-size "
         "sequences: three consecutive runs into the same file for every permutation of n_samples in {4,8,16} with a fault at "
         "every call of the last run, and all 27 size sequences over {tiny,large,medium} through dump_state; zuko route: "
-        "Aspire.resume_from_file on the file left by each fault. non-trivial = crash point with a checkpoint in the file; "
+        "Aspire.resume_from_file on the file left by each fault, continued by the documented no-argument call and with the cadence override resume_kwargs={checkpoint_every: 2|3}. non-trivial = crash point with a checkpoint in the file; "
         "distinct = distinct (config, crash point)")
 ASSUMPTIONS = [
     "interruption = Python exception at a user-callable boundary; torn writes inside HDF5 are not modelled",
@@ -53,7 +53,7 @@ def install_probe(mon_ref):
 MON = [None]
 
 
-def one_run(cfg, path, fault_at=None, n_samples=None, via="path", stamp=""):
+def one_run(cfg, path, fault_at=None, n_samples=None, via="path", stamp="", fault_exc=InjectedFault):
     import _kernel
     import orng
     from aspire import Aspire
@@ -64,7 +64,7 @@ def one_run(cfg, path, fault_at=None, n_samples=None, via="path", stamp=""):
     _kernel.reset(mode="prw" if sampler == "smc" else "det", scale=0.6, horizon=200)
     orng.CONFIG["factory"] = None
     orng.CONFIG["seed"] = cfg["seed"]
-    mon = Monitor(p["like"], p["prior"], "numpy", fault_at=fault_at, keep_points=False)
+    mon = Monitor(p["like"], p["prior"], "numpy", fault_at=fault_at, keep_points=False, fault_exc=fault_exc)
     MON[0] = mon
     flow = AnalyticFlow(2, seed=cfg["seed"] + 1000, **p["flow"])
     flow.stamp = stamp
@@ -96,6 +96,8 @@ def one_run(cfg, path, fault_at=None, n_samples=None, via="path", stamp=""):
                                checkpoint_every=cfg["cadence"], **kw)
     except InjectedFault as e:
         out.exception = ("InjectedFault", str(e))
+    except InjectedInterrupt as e:
+        out.exception = ("InjectedInterrupt", str(e))
     except Exception as e:  # anything else escaping from aspire is a verdict for this case
         from env import exc_site
 
@@ -193,6 +195,21 @@ def run_config(cfg):
                 rep.violation("C12/last_checkpoint_bytes-not-last-write", None, case)
             rep.outcomes.add(explorer.digest([e["iteration"] for e in flog]))
             os.remove(path)
+            # the same crash point hit by a KeyboardInterrupt instead of an exception
+            del LOG[:]
+            FI = one_run(cfg, path, fault_at=k, fault_exc=InjectedInterrupt)
+            ilog = list(LOG)
+            casei = {"cfg": cfg, "crash_point": k, "fault": "KeyboardInterrupt"}
+            rep.case(explorer.digest([cfg, k, "interrupt"]), nontrivial=bool(want))
+            if FI.exception is None or FI.exception[0] != "InjectedInterrupt":
+                rep.violation(f"C12/interrupt-not-propagated/{FI.exception[0] if FI.exception else 'swallowed'}", FI.exception, casei)
+            else:
+                if [e["iteration"] for e in ilog] != [e["iteration"] for e in want]:
+                    rep.violation(f"C12/cadence/interrupted/every={every}", {"written_at": [e["iteration"] for e in ilog],
+                                                                               "expected": [e["iteration"] for e in want]}, casei)
+                check_file(rep, path, ilog[-1]["bytes"] if ilog else None, casei)
+            if os.path.exists(path):
+                os.remove(path)
         # Observation only (outside the property, which is about sampling *with a checkpoint file*):
         # sample_posterior(checkpoint_callback=cb, checkpoint_every=c) without a path consumes
         # checkpoint_every itself, so a user callback is invoked every iteration whatever c is.
@@ -330,10 +347,37 @@ def run_zuko(cfg):
             if last is not None and k % (2 * cfg.get("stride", 2)) == 0:
                 # "all loadable by the documented resume route": the resumed instance must be able to carry on
                 # with no sampler argument (everything taken from the file)
+                import shutil as _sh
+
+                pristine = path + ".pristine.h5"  # the resumed run below goes on writing to the file it was resumed from
+                _sh.copy(path, pristine)
                 rr = c11_file.one_run(cfg, path, resume=True, finish_resume=True)
                 rep.case(explorer.digest([cfg, "z-resume", k]), nontrivial=True)
                 if rr.exception is not None:
                     rep.violation(f"C12/zuko/documented-resume-route-fails/{rr.exception[0]}/{rr.exception[1]}", rr.exception, case)
+                # ... and with the documented cadence override (resume_kwargs={"checkpoint_every": c}): the resumed part of
+                # the run writes its checkpoints at the iterations that cadence dictates, plus once at the end
+                import pickle
+
+                it0 = pickle.loads(last)["iteration"]
+                for c2 in (2, 3):
+                    cpy = path + f".c{c2}.h5"
+                    _sh.copy(pristine, cpy)
+                    del LOG[:]
+                    ro = c11_file.one_run(cfg, cpy, resume=True, finish_resume=True, resume_kwargs={"checkpoint_every": c2})
+                    written = [e["iteration"] for e in LOG]
+                    rep.case(explorer.digest([cfg, "z-resume-cadence", k, c2]), nontrivial=True)
+                    c3 = dict(case, resume_cadence=c2, resumed_from_iteration=it0)
+                    if ro.exception is not None:
+                        rep.violation(f"C12/zuko/resume-with-cadence-override-fails/{ro.exception[0]}/{ro.exception[1]}", ro.exception, c3)
+                    else:
+                        T = len(ro.history["beta"])
+                        want_w = [i for i in range(it0 + 1, T + 1) if i % c2 == 0] + [T]
+                        if written != want_w:
+                            rep.violation(f"C12/cadence/resumed-with-override/every={c2}", {"written_at": written, "expected": want_w,
+                                                                                           "resumed_from": it0, "iterations": T}, c3)
+                    os.remove(cpy)
+                os.remove(pristine)
             os.remove(path)
         rep.sample({"cfg": cfg, "route": "zuko+resume_from_file", "crash_points": K})
         rep.count("zuko_configs")
